@@ -44,7 +44,7 @@ def Val.boolishLC : Val → Bool
   | .lc x => isBooleanValue x.value
   | _ => true
 
-def Val.isLcb : Val → Bool
+def Val.isLcbG : Val → Bool
   | .lcb _ => true
   | _ => false
 
